@@ -249,6 +249,9 @@ pub enum Damage {
     SjDel,
     SjGarbage(usize),
     SjStale(usize),
+    /// an earlier, well-formed state.json whose event timestamps are set far into the future (a clock that went
+    /// backwards, or a hand-edited file): invisible to the model, which abstracts timestamps away
+    SjFuture(usize),
     Nop,
 }
 
@@ -346,6 +349,7 @@ pub fn render_op(op: &Op, stream: Option<&[u8]>) -> String {
             Damage::SjDel => "dmg sj-del".into(),
             Damage::SjGarbage(_) => "dmg sj-garbage".into(),
             Damage::SjStale(k) => format!("dmg sj-stale {}", k),
+            Damage::SjFuture(k) => format!("dmg sj-stale {} t", k),
             Damage::Nop => "dmg nop".into(),
         },
     }
@@ -514,6 +518,7 @@ pub fn parse_op(line: &str, recompress: &dyn Fn(&[u8]) -> Vec<u8>) -> Option<Op>
         ["dmg", "sj-del"] => Some(Op::Dmg(Damage::SjDel)),
         ["dmg", "sj-garbage"] => Some(Op::Dmg(Damage::SjGarbage(1))),
         ["dmg", "sj-stale", k] => Some(Op::Dmg(Damage::SjStale(k.parse().ok()?))),
+        ["dmg", "sj-stale", k, "t"] => Some(Op::Dmg(Damage::SjFuture(k.parse().ok()?))),
         ["dmg", "nop"] => Some(Op::Dmg(Damage::Nop)),
         _ => None,
     }
